@@ -57,6 +57,9 @@ fn subjects() -> Vec<&'static str> {
         "dict:serde",
         "dict:file",
         "dict:optimized",
+        "dict:ls",
+        "dict:dc3",
+        "dict:divsufsort",
     ]
 }
 
@@ -93,9 +96,9 @@ fn algo_label(subject: &str) -> &'static str {
         "sab:sais" | "sab:sais_noopt" | "sab:sais_par" | "dict:sais" => "sais",
         "sab:adaptive_t16" => "adaptive_t16",
         "csa:default" | "csa:dict" | "csa:realtime" | "csa:large" => "sais",
-        "sab:divsufsort" => "divsufsort",
-        "sab:dc3" => "dc3",
-        "sab:ls" => "ls",
+        "sab:divsufsort" | "dict:divsufsort" => "divsufsort",
+        "sab:dc3" | "dict:dc3" => "dc3",
+        "sab:ls" | "dict:ls" => "ls",
         _ => "adaptive",
     }
 }
@@ -106,6 +109,8 @@ fn algo_label(subject: &str) -> &'static str {
 struct Text {
     fam: String,
     bytes: Vec<u8>,
+    /// length of the repeated block the text starts with (0 = none): text = B f1 B f2 [B f3] tail
+    blk: usize,
 }
 
 /// every string over {0,1,2} of length 0..=maxlen, symbols mapped through `map`
@@ -120,7 +125,7 @@ fn exhaustive(maxlen: usize, map: [u8; 3], fam: &str) -> Vec<Text> {
                 x /= 3;
             }
             b.reverse();
-            out.push(Text { fam: fam.to_string(), bytes: b });
+            out.push(Text { fam: fam.to_string(), bytes: b, blk: 0 });
         }
     }
     out
@@ -139,7 +144,7 @@ fn fib_word(k: usize, a: u8, b: u8) -> Vec<u8> {
 
 fn families(seed: u64, thorough: bool) -> Vec<Text> {
     let mut out: Vec<Text> = vec![];
-    let mut push = |fam: &str, b: Vec<u8>| out.push(Text { fam: fam.to_string(), bytes: b });
+    let mut push = |fam: &str, b: Vec<u8>| out.push(Text { fam: fam.to_string(), bytes: b, blk: 0 });
     // a^n
     for &n in &[1usize, 2, 3, 4, 8, 9, 16, 31, 64, 100, 255, 256, 257, 300] {
         push("a^n", vec![b'a'; n]);
@@ -289,13 +294,13 @@ fn big_texts(seed: u64, thorough: bool) -> Vec<Text> {
     // select_algorithm: > 50 000 -> DivSufSort (else SA-IS); build(): >= 100 000 -> parallel path; > 1 000 000 -> DivSufSort
     let edges: &[usize] = if thorough { &[50_000, 50_001, 99_999, 100_000, 1_000_000, 1_000_001] } else { &[50_000, 50_001] };
     for &n in edges {
-        out.push(Text { fam: "big edge k=256".into(), bytes: rng.bytes(n) });
+        out.push(Text { fam: "big edge k=256".into(), bytes: rng.bytes(n), blk: 0 });
     }
     for &n in sizes {
         // k <= 4: Adaptive selects SA-IS; random bytes: SA-IS / DivSufSort by size; repetitive: Larsson-Sadakane
         let b: Vec<u8> = (0..n).map(|_| *rng.pick(&[b'a', b'c', b'g', b't'])).collect();
-        out.push(Text { fam: "big k=4".into(), bytes: b });
-        out.push(Text { fam: "big k=256".into(), bytes: rng.bytes(n) });
+        out.push(Text { fam: "big k=4".into(), bytes: b, blk: 0 });
+        out.push(Text { fam: "big k=256".into(), bytes: rng.bytes(n), blk: 0 });
         let mut rep = vec![];
         while rep.len() < n {
             let c = rng.next() as u8;
@@ -303,9 +308,74 @@ fn big_texts(seed: u64, thorough: bool) -> Vec<Text> {
             rep.extend(std::iter::repeat(c).take(run));
         }
         rep.truncate(n);
-        out.push(Text { fam: "big runs".into(), bytes: rep });
+        out.push(Text { fam: "big runs".into(), bytes: rep, blk: 0 });
         let low: Vec<u8> = (0..n).map(|_| if rng.chance(9, 10) { b'x' } else { *rng.pick(b"abcde") }).collect();
-        out.push(Text { fam: "big low entropy".into(), bytes: low });
+        out.push(Text { fam: "big low entropy".into(), bytes: low, blk: 0 });
+    }
+    out
+}
+
+
+/// texts with two or three occurrences of a long block B followed by different bytes:
+/// B f1 B f2 [B f3] tail, the earlier occurrence followed by the smaller and by the larger byte;
+/// B random over 256 / over acgt, runs of 8 over a..g, low entropy, periodic, a^n.
+/// `small` texts (|B| <= 257) are judged entry by entry, the others through the projection.
+fn block_texts(seed: u64, thorough: bool, small: bool) -> Vec<Text> {
+    let mut rng = Rng::new(seed).derive("c12/blocks");
+    let sizes: Vec<usize> = if small {
+        vec![15, 16, 17, 255, 256, 257]
+    } else {
+        vec![255, 256, 257, 1023, 1024, 1025, 4095, 4096, 4097, 70_000]
+    };
+    let kinds = ["rand256", "k4", "runs", "lowent", "periodic", "a^n"];
+    let mut out = vec![];
+    for &len in &sizes {
+        for kind in kinds {
+            if len == 70_000 && !matches!(kind, "rand256" | "k4" | "runs") {
+                continue; // comparison sorts are quadratic on a 70 000-byte run / period
+            }
+            let gen = |n: usize, rng: &mut Rng| -> Vec<u8> {
+                match kind {
+                    "rand256" => rng.bytes(n),
+                    "k4" => (0..n).map(|_| *rng.pick(b"acgt")).collect(),
+                    "runs" => {
+                        let mut v = Vec::with_capacity(n + 8);
+                        let mut prev = 0u8;
+                        while v.len() < n {
+                            let mut c = *rng.pick(b"abcdefg");
+                            if c == prev {
+                                c = if c == b'g' { b'a' } else { c + 1 };
+                            }
+                            prev = c;
+                            v.extend(std::iter::repeat(c).take(8));
+                        }
+                        v.truncate(n);
+                        v
+                    }
+                    "lowent" => (0..n).map(|i| if i % 3 == 2 { *rng.pick(b"abcd") } else { b'x' }).collect(),
+                    "periodic" => b"abcde".iter().cycle().take(n).cloned().collect(),
+                    _ => vec![b'a'; n],
+                }
+            };
+            let block = gen(len, &mut rng);
+            // followers outside a..z so that they never extend a run / period of the block
+            for (tag, f) in [("smaller first", vec![b'A', b'~']), ("larger first", vec![b'~', b'A']), ("three", vec![b'P', b'~', b'A'])] {
+                if len == 70_000 && tag == "three" && !thorough {
+                    continue;
+                }
+                let mut t = vec![];
+                for &x in &f {
+                    t.extend_from_slice(&block);
+                    t.push(x);
+                }
+                if !small && t.len() < 10_050 {
+                    // beyond the adaptive threshold, filler of the same kind (keeps the branch of select_algorithm)
+                    let fill = gen(10_050 - t.len(), &mut rng);
+                    t.extend(fill);
+                }
+                out.push(Text { fam: format!("block {kind} {len} {tag}"), bytes: t, blk: len });
+            }
+        }
     }
     out
 }
@@ -903,31 +973,134 @@ fn case_big(o: &mut Out, variant: &str, text: &[u8]) -> bool {
         }
         Ok(Ok(sa)) => {
             let s = sa.as_slice();
-            let mut seen = vec![false; n];
-            let mut perm = s.len() == n;
-            for &x in s {
-                if x >= n || seen[x] {
-                    perm = false;
-                } else {
-                    seen[x] = true;
-                }
-            }
-            let mut violations = 0u64;
-            if perm {
-                for w in s.windows(2) {
-                    if !(text[w[0]..] < text[w[1]..]) {
-                        violations += 1;
-                    }
-                }
-            }
-            let mut present = [false; 256];
-            for &c in text {
-                present[c as usize] = true;
-            }
-            let distinct = present.iter().filter(|&&p| p).count();
+            let (perm, violations, distinct) = project_array(text, s);
             o.ev(json!({"op":"sa_proj","n":n,"len":s.len(),"perm":perm,"violations":violations,
                         "distinct":distinct,"text":digest(text)}), n as u64);
             true
+        }
+    }
+}
+
+
+/// permutation flag + adjacent order violations of an array given as a slice (generic projection)
+fn project_array(text: &[u8], s: &[usize]) -> (bool, u64, usize) {
+    let n = text.len();
+    let mut seen = vec![false; n];
+    let mut perm = s.len() == n;
+    for &x in s {
+        if x >= n || seen[x] {
+            perm = false;
+        } else {
+            seen[x] = true;
+        }
+    }
+    let mut violations = 0u64;
+    if perm {
+        for w in s.windows(2) {
+            if !(text[w[0]..] < text[w[1]..]) {
+                violations += 1;
+            }
+        }
+    }
+    let mut present = [false; 256];
+    for &c in text {
+        present[c as usize] = true;
+    }
+    (perm, violations, present.iter().filter(|&&p| p).count())
+}
+
+/// projection of a large case of compression::SuffixArrayCompressor (array read through suffix_at_rank)
+fn case_big_csa(o: &mut Out, comp: &SuffixArrayCompressor, text: &[u8]) -> bool {
+    let n = text.len();
+    match guard(|| comp.build_suffix_array(text)) {
+        Err(m) => {
+            o.panic("sa", m);
+            false
+        }
+        Ok(Err(_)) => {
+            o.st.refused += 1;
+            o.ev(json!({"op":"sa","ok":false,"sa":[]}), 0);
+            false
+        }
+        Ok(Ok(esa)) => {
+            let arr: Vec<usize> = (0..esa.len()).map(|r| esa.suffix_at_rank(r).unwrap_or(usize::MAX)).collect();
+            let (perm, violations, distinct) = project_array(text, &arr);
+            o.ev(json!({"op":"sa_proj","n":n,"len":arr.len(),"perm":perm,"violations":violations,
+                        "distinct":distinct,"text":digest(text)}), n as u64);
+            true
+        }
+    }
+}
+
+/// projection of a large case of the dictionary: for present patterns around the repeated block the
+/// number of occurrences (generic window scan), and of the returned list: length, all entries are
+/// occurrences, distinct, adjacent pairs out of suffix order; the rank range and depth of the matcher.
+fn case_big_dict(o: &mut Out, variant: &str, text: &[u8], blk: usize) -> bool {
+    let cfg = SuffixArrayDictionaryConfig {
+        min_frequency: 1,
+        use_memory_pool: false,
+        min_pattern_length: 1,
+        max_pattern_length: 1 << 20,
+        max_bfs_depth: 3,
+        dfa_cache_config: DfaCacheConfig::small_dictionary(text.len().max(1)),
+        suffix_array_config: SuffixArrayConfig { algorithm: algo_of(variant), ..Default::default() },
+        ..Default::default()
+    };
+    let d = match guard(|| SuffixArrayDictionary::new(text, cfg)) {
+        Err(m) => {
+            o.panic("built", m);
+            return false;
+        }
+        Ok(Err(_)) => {
+            o.st.refused += 1;
+            o.ev(json!({"op":"built_proj","ok":false}), 0);
+            return false;
+        }
+        Ok(Ok(d)) => d,
+    };
+    let n = d.dictionary_size();
+    let b = &text[..blk.min(text.len())];
+    let mut pats: Vec<Vec<u8>> = vec![b.to_vec()];
+    if blk + 1 <= text.len() {
+        pats.push(text[..blk + 1].to_vec()); // B f1
+        let mut q = b.to_vec();
+        q.push(b'#'); // B followed by a byte that follows no occurrence
+        pats.push(q);
+    }
+    if blk > 40 {
+        pats.push(b[blk - 40..].to_vec()); // the end of the block: every occurrence, shorter pattern
+        pats.push(b[..blk - 1].to_vec());
+    }
+    let r = guard(|| {
+        let mut items = vec![];
+        for p in &pats {
+            let occ = if p.len() <= text.len() { text.windows(p.len()).filter(|w| w == &p.as_slice()).count() } else { 0 };
+            let m = d.sa_match_continuation(0, n, 0, p);
+            let dm = d.da_match_max_length(p);
+            let pos: Vec<usize> = match d.find_all_matches(p, usize::MAX) {
+                Ok(v) => v.iter().map(|m| m.dict_position).collect(),
+                Err(_) => vec![usize::MAX],
+            };
+            let all_occ = pos.iter().all(|&i| i <= text.len() && text[i..].starts_with(p));
+            let mut sorted = pos.clone();
+            sorted.sort_unstable();
+            sorted.dedup();
+            let distinct = sorted.len() == pos.len();
+            let viol = if all_occ { pos.windows(2).filter(|w| !(text[w[0]..] < text[w[1]..])).count() } else { 0 };
+            items.push(json!({"plen":p.len(),"occ":occ,"npos":pos.len(),"all_occ":all_occ,"distinct":distinct,"viol":viol,
+                              "m":[m.lo, m.hi, m.depth],"da":[dm.lo, dm.hi, dm.depth]}));
+        }
+        items
+    });
+    match r {
+        Ok(items) => {
+            let k = items.len() as u64;
+            o.ev(json!({"op":"dict_proj","n":n,"len":text.len(),"items":items}), 4 * k);
+            true
+        }
+        Err(m) => {
+            o.panic("dict_proj", m);
+            false
         }
     }
 }
@@ -959,7 +1132,7 @@ fn drive(a: &Args) {
         batches.push(Batch {
             name: "single".into(),
             map: None,
-            texts: vec![Text { fam: "single".into(), bytes: hex(h) }],
+            texts: vec![Text { fam: "single".into(), bytes: hex(h), blk: 0 }],
             subjects: all.clone(),
             per_run: 1,
             big: a.get("big").is_some(),
@@ -983,6 +1156,26 @@ fn drive(a: &Args) {
         batches.push(Batch { name: "exh abc".into(), map: Some(map_a), texts: exhaustive((l2 - 1).min(l0), map_a, "exh abc"), subjects: heavy_twin, per_run: 150, big: false });
         batches.push(Batch { name: "exh 00 80 ff".into(), map: Some(map_b), texts: exhaustive(l2.min(l0), map_b, "exh 00 80 ff"), subjects: signed, per_run: 150, big: false });
         batches.push(Batch { name: "families".into(), map: None, texts: families(a.seed, a.thorough()), subjects: all.clone(), per_run: 12, big: false });
+        // a long block repeated with different followers: judged entry by entry (|B| <= 257) ...
+        let block_small = block_texts(a.seed, a.thorough(), true);
+        let all_but_twins: Vec<&'static str> = all
+            .iter()
+            .cloned()
+            .filter(|s| !matches!(*s, "dict:min4" | "dict:serde" | "dict:file" | "dict:optimized"))
+            .collect();
+        batches.push(Batch { name: "blocks small".into(), map: None, texts: block_small, subjects: all_but_twins, per_run: 12, big: false });
+        // ... and through the projection (|B| = 1023 .. 70 000), every construction and the entry points built on them
+        batches.push(Batch {
+            name: "blocks big".into(),
+            map: None,
+            texts: block_texts(a.seed, a.thorough(), false),
+            subjects: vec![
+                "sab:adaptive", "sab:sais", "sab:ls", "sab:divsufsort", "sab:dc3", "csa:default", "csa:dict",
+                "dict:adaptive", "dict:sais", "dict:ls", "dict:dc3", "dict:divsufsort",
+            ],
+            per_run: 12,
+            big: true,
+        });
         batches.push(Batch {
             name: "big".into(),
             map: None,
@@ -1038,6 +1231,15 @@ fn drive(a: &Args) {
                 {
                     continue;
                 }
+                if b.big && t.blk == 70_000 && !a.thorough() && !matches!(subject, "sab:ls" | "sab:adaptive" | "sab:divsufsort") {
+                    continue; // quick tier: the 70 000-byte blocks go to the comparison sorts and the adaptive switch
+                }
+                if b.big && t.blk == 70_000 && fam == "dict" && !matches!(variant, "ls" | "adaptive") {
+                    continue;
+                }
+                if b.big && fam == "dict" && t.blk >= 4095 && matches!(t.fam.split(' ').nth(1), Some("a^n") | Some("periodic")) {
+                    continue; // the generic occurrence scan is quadratic on a run / period of this size
+                }
                 if b.big && t.fam.starts_with("big edge") && variant != "adaptive" {
                     continue; // the size thresholds belong to Adaptive only
                 }
@@ -1056,7 +1258,15 @@ fn drive(a: &Args) {
                 max_len = max_len.max(t.bytes.len());
                 if b.big {
                     o.ev(json!({"op":"text_proj","fam":t.fam,"text":digest(&t.bytes)}), 0);
-                    if case_big(&mut o, variant, &t.bytes) {
+                    let judged = match fam {
+                        "csa" => match &comp {
+                            Some(c) => case_big_csa(&mut o, c, &t.bytes),
+                            None => false,
+                        },
+                        "dict" => case_big_dict(&mut o, variant, &t.bytes, t.blk),
+                        _ => case_big(&mut o, variant, &t.bytes),
+                    };
+                    if judged {
                         o.st.nontrivial += 1;
                     }
                     o.st.cases += 1;
